@@ -10,7 +10,7 @@ Rec == ndJsonDeserialize(IOEnv.TRACE)
 AllRules == {"C02", "C03", "C05", "C08", "C12"}
 \* XT_DEVS=a,b: the deviation classes listed in KNOWN_FINDINGS.txt
 SplitNames(str) == {SubSeq(str, i, j) : i \in 1..Len(str), j \in 1..Len(str)}
-AllDevs == {"yaml_void", "json_adjacent_scalars", "json_dupkey_toml"}
+AllDevs == {"yaml_void", "json_adjacent_scalars", "json_dupkey_toml", "json_toml_datetime_marker"}
 DevsFromEnv == IF "XT_DEVS" \in DOMAIN IOEnv THEN AllDevs \cap SplitNames(IOEnv.XT_DEVS) ELSE {}
 RulesFromEnv == IF "XT_RULES" \in DOMAIN IOEnv THEN {r \in AllRules : \E i \in 1..(Len(IOEnv.XT_RULES) - 2) : SubSeq(IOEnv.XT_RULES, i, i + 2) = r} ELSE AllRules
 
